@@ -306,14 +306,16 @@ func multiPointEndsRule(p *core.Program, r *core.Report, rule string) {
 		}
 		r.Check(ok, rule, short(fn), p.Pos(fn.Pos()), true, "ends[i] = (i+1)*stride", "the default end of point i is not (i+1)*g.stride: ends would be misaligned or not finish at the array length")
 	}
-	if fd, pkg := p.DeclOf("", "(*MultiPoint).Coords"); fd != nil {
-		ok := false
-		for _, c := range eng.ChainLoops(pkg, fd) {
-			if c.OK && c.Offset == "prevEnd" {
-				ok = true
+	if fn := mustFn(p, r, rule, "", "(*MultiPoint).Coords"); fn != nil {
+		ok, n := true, 0
+		why := ""
+		for _, c := range eng.ChainLoopsSSA(fn) {
+			n++
+			if !c.OK {
+				ok, why = false, c.Why
 			}
 		}
-		r.Check(ok, rule, "geom.(*MultiPoint).Coords", p.Pos(fd.Pos()), true, "prevEnd = end on every iteration", "MultiPoint.Coords does not advance prevEnd to end on every iteration: empty points are misplaced")
+		r.Check(ok && n > 0, rule, "geom.(*MultiPoint).Coords", p.Pos(fn.Pos()), true, "the previous end becomes the current end on every iteration", "MultiPoint.Coords does not advance its previous end to the current end on every iteration: empty points are misplaced ("+why+")")
 	}
 }
 
